@@ -162,7 +162,13 @@ func GenFile(r *rand.Rand) *AFile {
 	}
 	f.Dep = g.p(1, 8)
 	if g.p(2, 5) {
-		f.Deps = append(f.Deps, ADep{Path: "dep.proto", Public: g.p(1, 4)})
+		if g.p(1, 2) {
+			f.Deps = append(f.Deps, ADep{Path: "dep2.proto", Public: g.p(1, 2)})
+		}
+		f.Deps = append(f.Deps, ADep{Path: "dep.proto", Public: g.p(1, 3)})
+		if g.p(1, 4) {
+			f.Deps = append(f.Deps, ADep{Path: "dep3.proto", Public: g.p(1, 2)})
+		}
 		f.Imps = depEnv()
 	}
 	ed := f.Syntax == "editions"
